@@ -9,6 +9,7 @@ Fields == {"sleeptime", "jitter", "useragent", "pairs", "submit", "verb_get", "v
            "tcp_frame", "smb_frame", "dns_get_aaaa", "dns_put_metadata", "bof_reuse", "bof_allocator", "passive"}
 S(o, a) == [op |-> o, arg |-> a]
 Ex(c, o, m, f) == [code |-> c, off |-> o, mod |-> m, fn |-> f, pad |-> 0]
+\* (the two start addresses of the execute item name functions that are themselves keywords of the execute block)
 \* byte strings with the characters that need care in a profile: quote, backslash, apostrophe, LF, NUL, 0xFF
 Tricky == <<83, 61, 34, 92, 39, 10, 0, 255, 59>>
 Items == <<
@@ -22,7 +23,7 @@ Items == <<
   [spawnto_x86 |-> <<37, 119, 37, 92, 115, 121, 115, 92, 114, 46, 101, 120, 101>>, spawnto_x64 |-> <<37, 119, 37, 92, 110, 92, 116, 46, 101, 120, 101>>],
   [perms_i |-> 64, perms |-> 32, minalloc |-> 4096, allocator |-> 1],
   [tx86 |-> [append |-> <<144, 144>>, prepend |-> <<204, 34, 92>>], tx64 |-> [append |-> <<>>, prepend |-> <<144>>],
-   exec |-> <<Ex(1, 0, <<>>, <<>>), Ex(4, 0, <<>>, <<>>), Ex(8, 0, <<>>, <<>>), Ex(6, 16, <<107, 51, 50>>, <<76, 111, 97, 100>>), Ex(7, 0, <<110, 116>>, <<82, 116, 108>>), Ex(5, 0, <<>>, <<>>)>>],
+   exec |-> <<Ex(1, 0, <<>>, <<>>), Ex(4, 0, <<>>, <<>>), Ex(8, 0, <<>>, <<>>), Ex(6, 16, <<107, 51, 50>>, <<67, 114, 101, 97, 116, 101, 82, 101, 109, 111, 116, 101, 84, 104, 114, 101, 97, 100>>), Ex(7, 0, <<110, 116>>, <<67, 114, 101, 97, 116, 101, 84, 104, 114, 101, 97, 100>>), Ex(5, 0, <<>>, <<>>)>>],
   [dns_beacon |-> <<98, 46>>, dns_get_a |-> <<97, 46>>, dns_get_txt |-> <<116, 46>>, dns_put_output |-> <<111, 46>>, dns_idle |-> <<19, 7, 91, 241>>, dns_sleep |-> 5, maxdns |-> 251],
   [cleanup |-> 1, sleep_mask |-> 1, data_store_size |-> 16],
   [gate |-> [i \in 1..23 |-> IF i \in {1, 2, 5, 23} THEN 1 ELSE 0]],
